@@ -35,9 +35,9 @@ PROPS = {
     "C10": dict(worlds=[("arena", 1.0)], quick=60_000, thorough=3_000_000),
     "C12": dict(worlds=[("arena", 1.0)], quick=60_000, thorough=3_000_000),
     "C13": dict(worlds=[("arena", 1.0)], quick=60_000, thorough=3_000_000),
-    "C14": dict(worlds=[("arena", 1.0)], quick=50_000, thorough=2_500_000),
+    "C14": dict(worlds=[("arena", 0.7), ("coll", 0.3)], quick=50_000, thorough=2_500_000),
     "C15": dict(worlds=[("coll", 1.0)], quick=300_000, thorough=12_000_000),
-    "C16": dict(worlds=[("coll", 1.0)], quick=300_000, thorough=12_000_000),
+    "C16": dict(worlds=[("coll", 0.7), ("strs", 0.3)], quick=300_000, thorough=12_000_000),
     "C17": dict(worlds=[("lock", 1.0)], quick=200_000, thorough=8_000_000),
     "C18": dict(worlds=[("arena", 1.0)], quick=60_000, thorough=3_000_000),
     "C19": dict(worlds=[("pool", 1.0)], quick=20_000, thorough=1_000_000),
@@ -265,7 +265,7 @@ def run_batch(binary, world, prop, tier, seed, total, jobs, workdir):
         so, se = w["p"].communicate()
         rc = w["p"].returncode
         if rc == 0:
-            with open(w["out"]) as f:
+            with open(w["out"], encoding="utf-8", errors="replace") as f:
                 summaries.append(json.load(f))
             continue
         if rc == 2:
@@ -276,7 +276,7 @@ def run_batch(binary, world, prop, tier, seed, total, jobs, workdir):
         last = None
         done = 0
         try:
-            with open(w["prog"]) as f:
+            with open(w["prog"], encoding="utf-8", errors="replace") as f:
                 for line in f:
                     parts = line.split()
                     if parts and parts[0] == "BEGIN":
@@ -326,7 +326,7 @@ def main():
 
     if "--replay" in args:
         path = os.path.abspath(opt("--replay"))
-        with open(path) as f:
+        with open(path, encoding="utf-8", errors="replace") as f:
             world = re.search(r"^world (\S+)", f.read(), re.M).group(1)
         binary = build(world)
         kind, classes, out = run_replay(binary, path)
@@ -456,4 +456,11 @@ def main():
 
 
 if __name__ == "__main__":
-    main()
+    try:
+        main()
+    except SystemExit:
+        raise
+    except BaseException:  # a bug in the driver is a harness error (exit 2), never a verdict
+        import traceback
+        traceback.print_exc()
+        sys.exit(2)
